@@ -9,11 +9,13 @@ import (
 	"github.com/fxamacker/cbor/v2"
 	"github.com/taurusgroup/multi-party-sig/internal/round"
 	"github.com/taurusgroup/multi-party-sig/internal/zzverif/faults"
+	"github.com/taurusgroup/multi-party-sig/pkg/hash"
 	"github.com/taurusgroup/multi-party-sig/pkg/math/curve"
 	"github.com/taurusgroup/multi-party-sig/pkg/math/polynomial"
 	"github.com/taurusgroup/multi-party-sig/pkg/math/sample"
 	"github.com/taurusgroup/multi-party-sig/pkg/party"
 	"github.com/taurusgroup/multi-party-sig/pkg/protocol"
+	zksch "github.com/taurusgroup/multi-party-sig/pkg/zk/sch"
 )
 
 // Coordinated deviations of a dealer in the VSS-based key generations: the deviator keeps its
@@ -190,13 +192,20 @@ func specialCases(w *world, check string) []kase {
 			// identities stay), all shares 0.  Constant and degree are what a refresh expects and every
 			// share verifies, but the form differs from the honest parties' (t coefficients, no constant).
 			deltas = append(deltas, 99)
+			// 98: as 0 (constant 1), and with a Schnorr proof of knowledge of that constant computed over
+			// the refresh session's transcript - what the key generation mode would send
+			deltas = append(deltas, 98)
 		}
 		for _, delta := range deltas {
 			d, delta := d, delta
 			var phi []byte
+			var sigma interface{}
 			name := fmt.Sprintf("dealer-polynomial-degree%+d-consistent-shares", delta)
 			if delta == 0 {
 				name = "dealer-refresh-polynomial-constant=1-consistent-shares"
+			}
+			if delta == 98 {
+				name = "dealer-refresh-polynomial-constant=1-with-proof-consistent-shares"
 			}
 			if delta == 99 {
 				name = "dealer-refresh-identity-polynomial-in-full-form-zero-shares"
@@ -214,6 +223,11 @@ func specialCases(w *world, check string) []kase {
 				if !ok {
 					return m
 				}
+				if sigma != nil {
+					if nt, ok = faults.Set(nt, "/Sigma_i", sigma, false); !ok {
+						return m
+					}
+				}
 				m.Data = faults.Encode(nt)
 				return m
 			})
@@ -228,17 +242,34 @@ func specialCases(w *world, check string) []kase {
 					return false
 				}
 				dd := delta
-				if dd == 99 {
+				if dd == 99 || dd == 98 {
 					dd = 0
 				}
 				q := withDegree(pv.Interface().(*polynomial.Polynomial), dd)
 				if q == nil {
 					return false
 				}
-				if delta == 0 {
+				if delta == 0 || delta == 98 {
 					g := curve.Secp256k1{}
 					var one curve.Scalar = g.NewScalar().SetNat(new(saferith.Nat).SetUint64(1))
 					coefficients(q).Index(0).Set(reflect.ValueOf(&one).Elem())
+					if delta == 98 {
+						cr, _ := faults.CurrentRound(h)
+						hh, ok := cr.Interface().(interface {
+							HashForID(party.ID) *hash.Hash
+						})
+						if !ok {
+							return false
+						}
+						proof := zksch.NewProof(hh.HashForID(d), one.ActOnBase(), one, nil)
+						enc, err := cbor.Marshal(proof)
+						if err != nil {
+							return false
+						}
+						if sigma, err = faults.Decode(enc); err != nil {
+							return false
+						}
+					}
 				}
 				pv.Set(reflect.ValueOf(q))
 				phi, _ = polynomial.NewPolynomialExponent(q).MarshalBinary()
@@ -261,6 +292,11 @@ func specialCases(w *world, check string) []kase {
 					nt, ok := faults.Set(tree, field, phi, false)
 					if !ok {
 						return data
+					}
+					if sigma != nil {
+						if nt, ok = faults.Set(nt, "/Sigma_i", sigma, false); !ok {
+							return data
+						}
 					}
 					return faults.Encode(nt)
 				})
